@@ -1067,7 +1067,9 @@ fn light_rewrite_comment(
             let first_non_whitespace = l.find(|c| !char::is_whitespace(c));
             let left_trimmed = if let Some(fnw) = first_non_whitespace {
                 if l.as_bytes()[fnw] == b'*' && fnw > 0 {
-                    &l[fnw - 1..]
+                    // (the whitespace character before the `*` may be longer than one byte)
+                    let prev = l[..fnw].char_indices().next_back().map_or(fnw, |(i, _)| i);
+                    &l[prev..]
                 } else {
                     &l[fnw..]
                 }
